@@ -49,4 +49,6 @@ def run(ctx):
             o, raw = ctx.program.class_attr_def(kc.ci, "_match")
             if isinstance(raw, FuncInfo) and not screen_of(ctx, raw):
                 r.note("information only: vector class %s has no illegal-site screen (not required by the property)" % kc.name)
-    run_kernels(ctx, ["K7", "K8", "K9", "K10", "K1"], "C04")
+    run_kernels(ctx, ["K7", "K8", "K9", "K10", "K1", "K2", "K3"], "C04")
+    from ..rules_misc import k19_match
+    k19_match(ctx, "C04")
